@@ -148,6 +148,23 @@ class Program:
         for b in self.bodies:
             self.by_path.setdefault(b.path, []).append(b)
             self.by_did[b.did] = b
+        # a closure answers to the name of the function it is written in (who-may-write / who-may-call rules
+        # treat `iter.for_each(|x| x.field = ..)` in f as a write by f)
+        for b in self.bodies:
+            b.owner = b
+            if b.kind == "closure":
+                cur = b
+                for _ in range(8):
+                    pp = cur.d.get("parent_path")
+                    par = self.by_path.get(pp, [None])[0] if pp else None
+                    if par is None:
+                        break
+                    cur = par
+                    if cur.kind != "closure":
+                        break
+                if cur is not b and cur.kind != "closure":
+                    b.owner = cur
+                    b.name = cur.name
         self.adts = {a["path"]: a for a in d["adts"]}
         self.traits = {t["path"]: t for t in d["traits"]}
         self.impls = d["impls"]
